@@ -144,6 +144,24 @@ def check_case(case, ctx):
     hist = []
     classes = ["family:" + cfg["family"], "ne:%s" % ne, "widths:%d" % len(widths)]
 
+    def known_ag(w, what):
+        """Open finding KF-C07-AG: avoid_goingback makes the transition model second order (the penalty depends on the predecessor's
+        predecessor) while the lattice keeps one predecessor per state, so even the unpruned search is not optimal and a pruned run
+        can find a more probable path. Root-cause predicate: avoid_goingback is on AND the very same case with avoid_goingback off
+        satisfies the clause."""
+        if not cfg.get("avoid_goingback") or ne:
+            return False
+        c0 = dict(cfg, avoid_goingback=False)
+        un0 = common.build(case, config=dict(c0, max_lattice_width=None))
+        r_un0 = summary(un0, base.pkg(un0.match, path), n)
+        pr0 = common.build(case, config=dict(c0, max_lattice_width=widths[0]))
+        r0 = summary(pr0, base.pkg(pr0.match, path), n)
+        for ww in widths[1:widths.index(w) + 1] if w in widths else []:
+            r0 = summary(pr0, base.pkg(pr0.increase_max_lattice_width, ww), n)
+        holds = not (r0[0] > r_un0[0] or (r0[0] == r_un0[0] == n and r0[1] > r_un0[1] + 1e-9 * max(1.0, abs(r_un0[1]))))
+        return holds and ctx.known("KF-C07-AG", "with avoid_goingback the transition model is second order, the unpruned search is not "
+                                                "optimal and a pruned run can report a more probable complete match")
+
     def known():
         return ne and ctx.known("KF-C07-NE", "with non-emitting states the no-revisit filter makes a pruned / widened run keep a chain "
                                              "the unpruned run loses: it can be more probable than the unpruned run")
@@ -157,6 +175,9 @@ def check_case(case, ctx):
         if r[0] == r_un[0] == n and r[1] > r_un[1] + 1e-9 * max(1.0, abs(r_un[1])):
             if known():
                 classes.append("excluded:KF-C07-NE")
+                return
+            if known_ag(w, what):
+                classes.append("excluded:KF-C07-AG")
                 return
             raise Violation("pruned-better", f"{what} width {w}: complete match with log-probability {r[1]}, unpruned run {r_un[1]}")
         if w >= ncand and (r[0] != r_un[0] or (r[0] and not base.close(r[1], r_un[1], 1e-9))):
